@@ -37,4 +37,5 @@ PreHoldsEverywhere == out # <<>> => /\ \A i \in 1..Len(out.path) : out.path[i][4
 (* vacuity: these must be violated (reachable) for the model to be exercising the rare paths *)
 NoAddBack == out # <<>> => \A i \in 1..Len(out.path) : ~out.path[i][3]
 NoQMaxed  == out # <<>> => \A i \in 1..Len(out.path) : ~out.path[i][1]
+NoTopOnly == (Mode = "vartime" /\ out # <<>>) => \A i \in 1..Len(out.path) : ~out.path[i][5]   \* add-back seen in x_hi - carry alone
 =============================================================================
